@@ -95,6 +95,25 @@ CHECKS["C19"] = dict(
          "Bind/Listen/DoListen/Shutdown/NewConnection histories in a scratch directory under recover().",
     ref="DESIGN.md §6 C19", technique="Coq proof (case analysis on the splits; state machine over an abstract namespace) + differential correspondence")
 
+CHECKS["C16"] = dict(
+    text="Translator + Coq obligation: the access table (function, field, read/write, mutex held) is regenerated from /repo's service.go and ctxio/conn.go on every "
+         "run and must satisfy the decidable lock discipline table_ok, which is proved to imply that every conflicting pair is ordered by the mutex or by one of three "
+         "protocol arguments (Props/C16.v; Lifecycle invariant I1 for the registry guard, Ctxio T1 for the helper goroutines); dynamic oracle: all pairs/triples of "
+         "API operations against running Listen/DoListen with clients under the Go race detector.",
+    ref="DESIGN.md §6 C16", technique="Coq proof over a table regenerated from source by a go/ast translator + race-detector runs",
+    note="The Go memory model is not formalised (SC race freedom of the access protocol => DRF is the standard argument). ")
+CHECKS["C17"] = dict(
+    text="Coq theorems over an interleaving model of one context-aware operation (caller, helper goroutine, canceller, peer): join on every return, bounded-step "
+         "return once the context is done on deadline-honouring transports, no stale deadline can fail a live operation, byte accounting; the pre-fix bridge behaviour "
+         "is refuted (Props/C17.v); tie: 4 transports x 3 operations x cancel/deadline x 4 cancellation instants on the real code with latency, goroutine and "
+         "follow-up-integrity observations; outcome classes compared with the model's exhaustive outcome sets.",
+    ref="DESIGN.md §6 C17", technique="Coq proof (reachability invariants + decreasing measure) + differential correspondence on real transports")
+CHECKS["C20"] = dict(
+    text="Coq theorems characterising the selected descriptor (activation_fd_spec, first match, range), the fallback in every other environment, and strconv.Atoi "
+         "(Props/C20.v); tie: one child process per environment of the (in the thorough tier full) product of LISTEN_PID x LISTEN_FDS x LISTEN_FDNAMES x descriptor "
+         "kinds, each binding a real Service.",
+    ref="DESIGN.md §6 C20", technique="Coq proof (case analysis; Atoi lemmas) + exhaustive differential correspondence over the environment product")
+
 NOT_YET = {
 }
 
